@@ -584,7 +584,7 @@ class Case:
         ev = {"tid": self.tid, "op": op, "tgt": tgt, "src": d.get("src", ""), "l": l if op in ("SetObj", "SetDef") else "",
               "v": vabs, "kw": kwabs, "badname": bool(d.get("badname", False)), "notation": n or op.lower(), "via": d.get("via", ""),
               "outcome": outcome, "exc": exc, "post": post, "res": res, "reserr": reserr, "rendererr": self.rendererr,
-              "asg": asgabs, "rec": bool(d.get("rec", False)), "argchanged": bool(self.argchanged)}
+              "asg": asgabs, "rec": bool(d.get("rec", False)), "argchanged": bool(self.argchanged), "tgts": []}
         self.tid += 1
         self.steps.append(ev)
         self.descr.append(d)
@@ -620,6 +620,10 @@ def K(tgt, asg, n, rec=True, res=(), badname=False):
 
 def SH(v, n, via="direct", res=("o", "w", "x"), badname=False):
     return {"op": "Show", "v": v, "n": n, "via": via, "res": list(res), "badname": badname}
+
+
+def other_none(none_ok):
+    return NONE if none_ok else "v2"
 
 
 def obj_notations(path):
@@ -788,6 +792,20 @@ def sequences(cls, leaf, tier_, idx=0):
     # 9. a style dictionary given to two constructors
     if has_obj:
         out.append(("shared_dict", [{"op": "SharedDict"}]))
+    # 9b. several objects constructed from one style dictionary object; order of the first reads of their (lazily built) styles
+    if has_obj:
+        x_has = leaf in cat["obj"][OTHER[cls]]
+        combos = [("nested", o_, "w") for o_ in (("ab", "ba", "aa", "copy", "show") if primary else ("ba", "copy"))]
+        if primary or thorough:
+            combos += [("flat", "ab", "w"), ("flat", "show", "w")] + ([("nested", "ba", "x"), ("flat", "copy", "x")] if x_has else [])
+        if thorough:
+            combos += [("flat", o_, "w") for o_ in ("ba", "aa", "copy")]
+        for form, order, partner in combos:
+            if form == "flat" and len(path) == 1:
+                continue
+            out.append((f"lazy_shared:{form}:{order}:{partner}",
+                        [{"op": "LazyShared", "n": f"ctor_lazy_{form}:{order}", "partner": partner},
+                         S("o", "v2", "attr", res=["o", partner]), S(partner, other_none(none_ok), "update_us", res=["o", "c"])]))
     # 10. Collection.set_children_styles (k = [o, k2], k2 = [x], k3 = [w]; c outside), interleaved with the other actions
     if has_obj:
         kn1 = ["kids_us", "kids_dict"] + (["kids_flat"] if len(path) > 1 else [])
@@ -887,7 +905,7 @@ def run_shared_dict(case):
     post = case.project()
     case.steps.append({"tid": case.tid, "op": "SetObj", "tgt": "o", "src": "", "l": "l", "v": "v1", "kw": {"l": NONE, "m": NONE}, "badname": False,
                        "notation": "ctor_mixed", "via": "", "outcome": outcome, "exc": exc, "post": post, "res": {}, "reserr": "",
-                       "asg": {"l": NONE}, "rec": False, "argchanged": False})
+                       "asg": {"l": NONE}, "rec": False, "argchanged": False, "tgts": []})
     case.tid += 1
     # step 2: SetObj(w, m, M1) by constructing w from the same dictionary object
     outcome, exc = "ok", ""
@@ -899,9 +917,60 @@ def run_shared_dict(case):
     post = case.project()
     case.steps.append({"tid": case.tid, "op": "SetObj", "tgt": "w", "src": "", "l": "m", "v": case.vid(case.MT["v1"]), "kw": {"l": NONE, "m": NONE},
                        "badname": False, "notation": "ctor_shared_dict", "via": "", "outcome": outcome, "exc": exc, "post": post, "res": {}, "reserr": "",
-                       "asg": {"l": NONE}, "rec": False, "argchanged": False})
+                       "asg": {"l": NONE}, "rec": False, "argchanged": False, "tgts": []})
     case.tid += 1
     case.descr.append({"op": "SharedDict"})
+
+
+def run_lazy_shared(case, d):
+    """Several objects constructed from ONE style dictionary object while their styles are still un-initialised, then
+    first reads of the styles in a chosen order, then another object constructed from the same dictionary:
+        dct = {leaf: V1};  a = K(style=dct);  b = K2(style=dct);  <first reads>;  c = K(style=dct)
+    d: {"n": "ctor_lazy_<form>:<order>", "partner": "w" | "x"}; abstractly SetObjs({o, partner}, l, v1), then SetObj(c, l, v1)."""
+    env = case.env
+    form, order = d["n"][len("ctor_lazy_"):].split(":")
+    partner = d["partner"]
+    dct = nested(case.path, case.real("v1")) if form == "nested" else {us(case.path): case.real("v1")}
+    before = key(dct)
+
+    def event(op, tgt, tgts, notation, outcome, exc):
+        post = case.project()
+        case.steps.append({"tid": case.tid, "op": op, "tgt": tgt, "src": "", "l": "l", "v": "v1", "kw": {"l": NONE, "m": NONE}, "badname": False,
+                           "notation": notation, "via": "", "outcome": outcome, "exc": exc, "post": post, "res": {}, "reserr": "", "rendererr": "",
+                           "asg": {"l": NONE}, "rec": False, "argchanged": key(dct) != before, "tgts": tgts})
+        case.tid += 1
+
+    outcome, exc = "ok", ""
+    try:
+        a = case.obj["o"] = env.make(case.clsof["o"], style=dct)
+        b = case.obj[partner] = env.make(case.clsof[partner], style=dct)
+        if order == "ab":
+            a.style, b.style
+        elif order == "ba":
+            b.style, a.style
+        elif order == "aa":
+            a.style, a.style, b.style
+        elif order == "copy":
+            a.copy()
+            b.style
+        elif order == "show":
+            env.tu.get_flatten_objects_properties_recursive(a, style_kwargs={}, colorsequence=env.D.display.colorsequence)
+            b.style
+        else:
+            raise MachineryError(f"unknown read order {order}")
+    except MachineryError:
+        raise
+    except Exception as ex:  # pylint: disable=broad-except
+        outcome, exc = "raise", type(ex).__name__
+    event("SetObjs", "", ["o", partner], d["n"], outcome, exc)
+    outcome, exc = "ok", ""
+    try:
+        case.obj["c"] = env.make(case.clsof["c"], style=dct)
+        case.obj["c"].style
+    except Exception as ex:  # pylint: disable=broad-except
+        outcome, exc = "raise", type(ex).__name__
+    event("SetObj", "c", [], "ctor_after_reads_" + form, outcome, exc)
+    case.descr.append(d)
 
 
 def run_sequence(cls, leaf, label, seq, tid0, case_id, checkfresh=False):
@@ -911,6 +980,8 @@ def run_sequence(cls, leaf, label, seq, tid0, case_id, checkfresh=False):
     for d in seq:
         if d["op"] == "SharedDict":
             run_shared_dict(case)
+        elif d["op"] == "LazyShared":
+            run_lazy_shared(case, d)
         else:
             case.step(d)
     return case.finish(case_id, checkfresh)
